@@ -149,6 +149,12 @@ def run(ctx):
         st = {s["path"]: g.canon(s["rhs"], subst=False) for s in paths.stores(g) if s["path"].startswith("link->") and not paths.guarded(g, s["node"], lambda fn, cc, pol: pol and "logs2prob <" in fn.canon(cc, subst=False))}
         want = {"link->from_state": "from", "link->to_state": "to", "link->logs2prob": "logp", "link->wid": "wid" if name == "fsg_model_trans_add" else "-1"}
         ctx.check(w2, st == want and [p_[0] for p_ in g.params[:5]] == ["fsg", "from", "to", "logp", "wid"], key(g, "fields"), g.where(g.root), "new arc is stored as %s" % st)
+    # word labels are compared byte for byte, as fsg_model_word_id / word_add do: every table the grammar code
+    # keys by word text or by state is created case-sensitive (words that differ in letter case are different
+    # labels; a folding table gives them one id and the grammar read back is not the grammar written)
+    for g_ in [x for x in P.functions(U) if x.file.endswith(U)]:
+        for c_ in g_.calls("hash_table_new"):
+            ctx.check(w2, g_.constval(g_.args(c_)[1]) == 0, key(g_, "case-sensitive-table@%d" % sum(1 for c2 in g_.calls("hash_table_new") if c2 <= c_)), g_.where(c_), "a table of the grammar code is created with case folding (`%s`): labels that differ only in letter case become one word" % g_.canon(g_.args(c_)[1], subst=False))
     # range checks on parsed numbers (two-sided), before use
     for var in ("i", "j"):
         uses = [c for c in rd.calls({"fsg_model_trans_add", "fsg_model_null_trans_add"})]
